@@ -62,6 +62,34 @@ def zero_d_vs_snowflake(rep, rng, K, tt, sol=None, reuse=False):
         rep.violation("0D-vs-flake solidification", "%s: solidification time Snowflake %r s vs 0D %r s" % (lab, ts_f, ts_0), dict(pair=lab))
 
 
+def thin_identity(rep, S, dt, lab):
+    """C15_1D_mean_follows_0D_law_up_to_bottom_offset evaluated on the implementation's own stored 1D cooling states (no evaporation):
+    mean(T_{k+1}) - cool0(mean T_k) = dt K/(rho cp H) (mean T_k - T_k[bottom]), the 0D step computed as the 0D model does (A, mass, cp)."""
+    try:
+        sr.every_step_saved(S, dt)
+    except RuntimeError:
+        return
+    ie = sr.split_run(S, dt)
+    if ie is None or ie < 3:
+        return
+    c = S.const
+    T = np.asarray(S.temp) + 273.15
+    sh = np.asarray(S.shelfTemp) + 273.15
+    K = S.k["s0"]
+    m0, m1 = T[:ie].mean(axis=1), T[1:ie + 1].mean(axis=1)
+    zero_d = m0 + dt * (c["A"] * K * (sh[1:ie + 1] - m0)) / (c["cp_solution"] * c["mass"])
+    rhs = dt * K / (c["rho_l"] * c["cp_solution"] * c["height"]) * (m0 - T[:ie, 0])
+    err = float(np.abs((m1 - zero_d) - rhs).max())
+    rep.coverage["thin_limit_identity"] = dict(steps=int(ie), max_abs_err_K=err, largest_offset_term_K=float(np.abs(rhs).max()),
+                                               largest_mean_minus_bottom_K=float(np.abs(m0 - T[:ie, 0]).max()))
+    rep.case(lab + " thin-limit identity", nontrivial=bool(np.abs(rhs).max() > 1e-6), sample=dict(pair=lab, steps=int(ie), err=err))
+    if not err <= 1e-8:
+        k = int(np.abs((m1 - zero_d) - rhs).argmax())
+        rep.violation("1D mean does not follow the 0D law", "%s: cooling step %d: mean(T_new) - cool0(mean T) = %.6e K but dt K/(rho cp H) (mean - bottom) = %.6e K "
+                      "(exact identity of the 1D cooling step, theorem C15_1D_mean_follows_0D_law_up_to_bottom_offset)" % (lab, k, float((m1 - zero_d)[k]), float(rhs[k])),
+                      dict(pair=lab, step=k))
+
+
 def one_d_vs_two_d(rep, rng, conf, tier):
     h, d = 0.06, 0.12
     area = math.pi * (d / 2) ** 2
@@ -84,6 +112,8 @@ def one_d_vs_two_d(rep, rng, conf, tier):
     except Exception as e:
         rep.violation("correspondence-case-2D", "cannot build the 2D one-step case: %r" % e, dict(pair=lab), found_input=False)
     rep.coverage["radial_spread_K_" + conf] = float(spread)
+    if conf == "shelf":
+        thin_identity(rep, S1, dt1, lab)
     rep.coverage["t_nuc_1D_vs_2D_" + conf] = [float(r1["t_nuc"]), float(r2["t_nuc"])]
     if spread > 1e-6:
         # the known finding is the non-uniformity the in-place sweep produces in THESE pairs (0.2 - 0.7 K); anything larger is something else
@@ -97,6 +127,7 @@ def one_d_vs_two_d(rep, rng, conf, tier):
         Sv2 = sr.make(dim="spatial_2D", conf="VISF", height=h, diameter=d, K=300, prog=prog, extra=exw); sr.run(Sv2)
         Sa = sr.make(dim="spatial_1D", conf="shelf", height=h, diameter=d, K=300, prog=prog, extra=extra); sr.run(Sa)
         Sb = sr.make(dim="spatial_2D", conf="shelf", height=h, diameter=d, K=300, prog=prog, extra=extra); sr.run(Sb)
+        thin_identity(rep, Sa, sr.step_info(Sa)[0], "1D shelf h=%g d=%g" % (h, d))
         try:
             rep._c2.append(sr.sn2d_case(Sv2, dt2, rng)[0]); rep._l2.append(lab + " (weak early vacuum pulse)")
         except Exception as e:
@@ -123,7 +154,7 @@ def check(rep, tier):
                 "scripted to the 0D one): cooling curve to 1e-9, nucleation state, solidification time to 1 %; (b) 1D vs 2D of equal cross-section, shelf and VISF: radial uniformity of the 2D field, "
                 "nucleation times, evaporative cooling of the top surface during the vacuum window; non-trivial = every pair")
     rep.trusted = ["Coq 8.16.1 kernel (theorems on the 0D <-> Snowflake identities)", "harness/c15.py paired-run oracle; tolerances 1e-9 / 1 % / 10 %",
-                   "the thermally-thin 1D -> 0D limit is asymptotic: thorough tier oracle only"]
+                   "the thermally-thin 1D -> 0D limit: the exact discrete identity of the cooling step is a theorem and is evaluated on the stored 1D states; the asymptotic rate is a thorough tier oracle"]
     hw = {"T_eq": 3.82, "solid_fraction": 0.08, "k_f": 2.05, "M_s": 0.18}
     for K, tt, sol, reuse in ([(50, 5400.0, None, True), (50, 5400.0, hw, False)] if tier == "quick" else
                               [(50, 5400.0, None, False), (50, 5400.0, None, True), (50, 5400.0, hw, False), (100, 4000.0, {"T_eq": -0.5}, True), (20, 9000.0, None, False), (100, 4000.0, hw, True)]):
